@@ -2798,4 +2798,144 @@ theorem entry_senses_listing {norm : String → String} {dr : Nat} {db db' : Db}
   exact this
 
 
+/-! ### end to end: `Synset.senses()` / members after `add` -/
+
+/-- the synset rank written for each local sense (same rows as `addLexicon_sense_table`) -/
+theorem addLexicon_sense_ranks {norm : String → String} {dr : Nat} {db db' : Db} {l : Lexicon}
+    (t : AddTrace norm dr db db' l) :
+    ∃ rows, db'.senses = db.senses ++ rows ∧
+      Forall2 (fun (p : Entry × (Sense × Nat)) (row : RSense) => row.srank = memberRank l dr p.2.1.id ∧ row.id = p.2.1.id) (sensePairs l) rows := by
+  obtain ⟨_, _, rows, hrows, _, _⟩ := addLexicon_sense_table t
+  let c : Ctx := ⟨t.lexid, t.extid, externalIds l⟩
+  obtain ⟨b1, b2, h1, h2, h3⟩ := insertSenses_split l c dr _ _ t.hsen
+  obtain ⟨_, rows', hrows', hF⟩ := foldlM_rows_nested (fun d => d.senses) (fun _ => ()) (fun (e : Entry) => (localSenses e).zipIdx)
+    (fun e => senseStep l c dr e) (fun _ _ si row => row.srank = memberRank l dr si.1.id ∧ row.id = si.1.id)
+    (fun e b si b' hh => by
+      obtain ⟨r, hb, hr, _⟩ := senseStep_ok l c dr e b b' si hh
+      exact ⟨rfl, r, by rw [hb], hr.2.2.2.2.2.1, hr.1⟩) l.entries _ _ h1
+  -- both descriptions speak of the same rows
+  obtain ⟨_, _, rows2, hrows2, _, _⟩ := addLexicon_sense_table t
+  refine ⟨rows, hrows, ?_⟩
+  -- db'.senses = b1.senses (later passes keep senses) and b1.senses = d5.senses ++ rows', d5.senses = db.senses
+  have k1 := insertLexicon_keeps_rels _ _ _ _ _ t.hlex
+  let πS : Db → List RSense := fun b => b.senses
+  have s2 : πS t.d2 = πS t.d1 := keepsGF_insertSynsets πS l c (fun p => by keepsG_step presupStep)
+    (by keepsG_step synsetStep) (by keepsG_step piliStep) _ _ t.hsyn
+  have s3 : πS t.d3 = πS t.d2 := keepsGF_insertEntries πS l c (by keepsG_step entryStep) _ _ t.hent
+  have s4 : πS t.d4 = πS t.d3 := keepsGF_insertForms πS (fun _ _ => rfl) norm l c _ _ t.hform
+  have s5 : πS t.d5 = πS t.d4 := keepsGF_insertPronsTags πS l c (fun _ _ _ => by keepsG_step pronStep)
+    (fun _ _ _ => by keepsG_step tagStep) _ _ t.hpt
+  have hs5 : t.d5.senses = db.senses := by
+    show πS t.d5 = _
+    rw [s5, s4, s3, s2]
+    show t.d1.senses = _
+    rw [k1.2.2.2.2.2]; rfl
+  have a2 : πS b2 = πS b1 := keepsGF_fold πS _ (keepsG_nested πS (fun e => localSenses e) (fun _ => adjStep c) (fun _ => by keepsG_step adjStep)) _ _ _ h2
+  have a3 : πS t.d6 = πS b2 := by
+    apply keepsGF_fold πS _ _ _ _ _ h3
+    apply keepsG_nested πS (fun (e : Entry) => e.senses) (fun _ db s => s.counts.foldlM (countStep c s) db)
+    intro _
+    exact fun b s b' h => fold_keepsG πS _ (by keepsG_step countStep) b s.counts b' h
+  have a7 : πS t.d7 = πS t.d6 := keepsGF_insertSbs πS t.sbs c (by keepsG_step sbStep) (fun _ => by keepsG_step sbSenseStep) _ _ t.hsb
+  have a8 : πS t.d8 = πS t.d7 := keepsGF_insertRelations πS l c (fun _ => by keepsG_step synRelStep)
+    (by keepsG_step senseRelStep) (by keepsG_step senseSynRelStep) _ _ t.hrel
+  have a9 : πS db' = πS t.d8 := keepsGF_insertDefsExamples πS l c (fun _ => by keepsG_step defStep)
+    (fun _ => by keepsG_step senseExampleStep) (fun _ => by keepsG_step synsetExampleStep) _ _ t.hdx
+  have : db'.senses = db.senses ++ rows' := by
+    show πS db' = _
+    rw [a9, a8, a7, a3, a2]
+    show b1.senses = _
+    rw [hrows', hs5]
+  have heq : rows = rows' := List.append_cancel_left (hrows.symm.trans this)
+  rw [heq]
+  exact hF
+
+theorem Forall2.and {α β} {R S : α → β → Prop} : ∀ {l : List α} {l' : List β}, Forall2 R l l' → Forall2 S l l' →
+    Forall2 (fun a b => R a b ∧ S a b) l l' := by
+  intro l l' h1
+  induction h1 with
+  | nil => intro h2; cases h2; exact Forall2.nil
+  | cons hd _ ih => intro h2; cases h2 with | cons hd2 tl2 => exact Forall2.cons ⟨hd, hd2⟩ (ih tl2)
+
+/-- **C01, members of a synset, end to end** (no `members` attribute ranks the senses: every sense
+has the default rank): `get_synset_members` of the synset with id `sid`, inside the new lexicon,
+lists exactly the non-external senses of the document that reference `sid`, in document order -/
+theorem C01_synset_members_default_order {norm : String → String} {dr : Nat} {db db' : Db} {l : Lexicon}
+    (t : AddTrace norm dr db db' l)
+    (hfkS : ∀ o ∈ db.senses, o.lex ∈ db.lexicons.map (·.rowid))
+    (hnE : (db.entries.map (·.rowid)).Nodup) (hnY : (db.synsets.map (·.rowid)).Nodup)
+    (hrank : ∀ p ∈ sensePairs l, memberRank l dr p.2.1.id = dr)
+    (sid : String) (x0 : Nat) (hx0 : synsetRow db' sid (t.ctx.lid sid) = some x0) :
+    (synsetMembers db' x0 [t.lexid]).map (fun s => (s.id, s.entryId)) =
+      ((sensePairs l).filter (fun p => p.2.1.synset == sid)).map (fun p => (p.2.1.id, p.1.id)) := by
+  obtain ⟨hE, hY, rows, hrows, hF, _⟩ := addLexicon_sense_table t
+  obtain ⟨rows', hrows', hR⟩ := addLexicon_sense_ranks t
+  have heq : rows = rows' := List.append_cancel_left (hrows.symm.trans hrows')
+  rw [← heq] at hR
+  have hFR := Forall2.and hF hR
+  obtain ⟨_, g2, g3⟩ := insertLexicon_frame2 _ _ _ _ _ t.hlex
+  have hlexid : t.lexid = nextId (db.lexicons.map (·.rowid)) := (insertLexicon_frame _ _ _ _ _ t.hlex).2.2.1
+  have hnY' : (db'.synsets.map (·.rowid)).Nodup := by
+    rw [hY]
+    apply insertSynsets_nodupY _ _ _ _ t.hsyn
+    rw [g2]; exact hnY
+  have hnE' : (db'.entries.map (·.rowid)).Nodup := by
+    rw [hE]
+    apply insertEntries_nodupE _ _ _ _ t.hent
+    rw [(keepsF_insertSynsets l _ _ _ t.hsyn).1, g3]; exact hnE
+  have hx0' : synsetRowY' db'.synsets sid (t.ctx.lid sid) = some x0 := hx0
+  unfold synsetMembers
+  rw [hrows]
+  rw [filter_owned_append db.senses rows (·.synset) (·.lex) x0 t.lexid
+    (fun o ho e' => by have := hfkS o ho; rw [e', hlexid] at this; exact nextId_not_mem _ this)
+    (Forall2.forall_right (fun _ _ hr => hr.2.1) hF)]
+  have hsub : Forall2 (fun (p : Entry × (Sense × Nat)) row => SenseRowT t.ctx (db'.entries, db'.synsets) p.1 p.2 row ∧
+        (row.srank = memberRank l dr p.2.1.id ∧ row.id = p.2.1.id))
+      ((sensePairs l).filter (fun p => p.2.1.synset == sid)) (rows.filter (fun r => r.synset == x0)) := by
+    apply Forall2.filter_agree _ _ _ hFR
+    intro p row hr
+    by_cases q : p.2.1.synset = sid
+    · have : row.synset = x0 := by
+        have h5 := hr.1.2.2.2.2
+        simp only at h5
+        rw [q, hx0'] at h5
+        exact (Option.some.inj h5).symm
+      simp [q, this]
+    · have : row.synset ≠ x0 := by
+        intro q'
+        have h5 := hr.1.2.2.2.2
+        simp only at h5
+        exact q (synsetRowY'_inj _ hnY' _ _ _ _ (by rw [h5, q']) hx0')
+      have q1 : (p.2.1.synset == sid) = false := by simpa using q
+      have q2 : (row.synset == x0) = false := by simpa using this
+      rw [q1, q2]
+  -- all ranks are equal: the stable sort keeps insertion order
+  have hsorted : (rows.filter (fun r => r.synset == x0)).Pairwise (fun x y => x.srank ≤ y.srank) := by
+    have hall : ∀ r ∈ rows.filter (fun r => r.synset == x0), r.srank = dr := by
+      intro r hr
+      obtain ⟨p, hp, hpr⟩ := Forall2.exists_of_mem_right hsub r hr
+      rw [hpr.2.1]
+      exact hrank p (List.mem_filter.mp hp).1
+    apply List.pairwise_of_forall_mem_list
+    intro a ha b hb
+    rw [hall a ha, hall b hb]
+    exact Nat.le_refl _
+  rw [sortBy_of_sorted _ _ hsorted]
+  have hdec : ∀ (p : Entry × (Sense × Nat)) (r : RSense), SenseRowT t.ctx (db'.entries, db'.synsets) p.1 p.2 r →
+      senseData db' r = some ⟨p.2.1.id, p.1.id, p.2.1.synset, r.lex, r.rowid⟩ := by
+    intro p r ⟨a1, _, _, a4, a5⟩
+    rw [← a1]
+    exact senseData_resolve db' r p.1.id p.2.1.synset _ _ a4 a5 hnE' hnY'
+  have hfm : ∀ {L : List (Entry × (Sense × Nat))} {R : List RSense},
+      Forall2 (fun (p : Entry × (Sense × Nat)) row => SenseRowT t.ctx (db'.entries, db'.synsets) p.1 p.2 row ∧
+        (row.srank = memberRank l dr p.2.1.id ∧ row.id = p.2.1.id)) L R →
+      (R.filterMap (senseData db')).map (fun s => (s.id, s.entryId)) = L.map (fun p => (p.2.1.id, p.1.id)) := by
+    intro L R hh
+    induction hh with
+    | nil => rfl
+    | cons hd _ ih =>
+      rw [List.filterMap_cons, hdec _ _ hd.1]
+      simp only [List.map_cons, ih]
+  exact hfm hsub
+
 end WnVerif.Props.C01
